@@ -233,6 +233,12 @@ func preliminaryProcessesChecks(processes []*Process, assumedFreeNames []Name, g
 			return fmt.Errorf("(%s) type error in process %s; %s", processes[i].Position.String(), processes[i].OutlineString(), err)
 		}
 
+		// A process declared under several provider names is duplicated for each of them, so
+		// its type must allow contraction (as for an explicit split)
+		if len(processes[i].Providers) > 1 && !types.IsContractable(processes[i].Type) {
+			return fmt.Errorf("(%s) process %s has several providers, but its type is in %s mode, which cannot be split", processes[i].Position.String(), processes[i].OutlineString(), processes[i].Type.Modality().FullString())
+		}
+
 		// Check also that the free names being used exist either as one of the other provider names, or as an assumed free name
 		processFreeNames := processes[i].Body.FreeNames()
 		// Remove provider names, since those are bound
